@@ -474,6 +474,8 @@ class SyncWorld(World):
         def disconnect(sid, reason):
             slot = w._slot_of(sid)
             w._ev(slot, 'disc:' + REASON.get(reason, '?' + str(reason)))
+            if w.cfg['disc_raises'] == 'cancel':
+                raise GeneratorExit('disconnect handler failure (scripted, not an Exception)')
             if w.cfg['disc_raises']:
                 raise RuntimeError('disconnect handler failure (scripted)')
 
@@ -506,7 +508,7 @@ class SyncWorld(World):
             'SERVER_NAME': 'test', 'SERVER_PORT': '80', 'wsgi.url_scheme': 'http',
             'HTTP_HOST': 'test', 'wsgi.input': stream, 'SERVER_PROTOCOL': 'HTTP/1.1',
         }
-        if method == 'POST' or body:
+        if (method == 'POST' or body) and declared != 'absent':
             env['CONTENT_LENGTH'] = str(len(body) if declared is None else declared)
         for k, v in (headers or {}).items():
             env['HTTP_' + k.upper().replace('-', '_')] = v
@@ -802,6 +804,9 @@ class AsyncWorld(World):
         async def disconnect(sid, reason):
             slot = w._slot_of(sid)
             w._ev(slot, 'disc:' + REASON.get(reason, '?' + str(reason)))
+            if w.cfg['disc_raises'] == 'cancel':
+                # e.g. the handler awaited a task it had cancelled
+                raise asyncio.CancelledError()
             if w.cfg['disc_raises']:
                 raise RuntimeError('disconnect handler failure (scripted)')
 
@@ -830,7 +835,7 @@ class AsyncWorld(World):
         hdrs = [(b'host', b'test')]
         for k, v in (headers or {}).items():
             hdrs.append((k.lower().encode(), v.encode()))
-        if method == 'POST' or body:
+        if (method == 'POST' or body) and declared != 'absent':
             hdrs.append((b'content-length',
                          str(len(body) if declared is None else declared).encode()))
         sc = {'type': typ, 'path': '/engine.io/', 'query_string': query.encode(),
